@@ -74,6 +74,11 @@ structure DState where
   roles : Option (List String × List String) := none
   -- bids carried over by an accepted migration from a format-changing version (C06)
   carried : List String := []
+  -- what such a carried-over bid still holds according to its history (the fold over its event
+  -- log at the migration, then every accepted request on it): the stored bid a later match or
+  -- reversal starts from must say the same, or its payout – computed from the stored amounts –
+  -- is not the escrow that history left (theorems `C06_carried_over`, `C15_convert`)
+  expect : List (String × (Nat × Nat × Nat)) := []
   pend : Pending := {}
   -- counters (evidence)
   steps : Nat := 0
@@ -403,7 +408,7 @@ def judge (d : DState) : Verdict × DState :=
       | _ => d.roles
     ({ diffs := [("UNMODELLED", [])] },
      { d with st := keep, shadow := sh', roles := roles', feeTracked := false,
-              unmodelled := d.unmodelled + 1 })
+              unmodelled := d.unmodelled + 1, expect := [] })
   else
   match call with
   | .inst m =>
@@ -453,7 +458,15 @@ def judge (d : DState) : Verdict × DState :=
               v.check "C05" "C05_rolesAsRequested"
                 (authorized { s with info := { s.info with approvers := aps, executors := exs } } c.sender c.msg)
             | none => v
-          v.check "C11" "unknownKeys" (!hasUnknown p.deltas)
+          let v := v.check "C11" "unknownKeys" (!hasUnknown p.deltas)
+          let fromHistory := fun (v : Verdict) (prop id : String) =>
+            match d.expect.lookup id, loadBid s id with
+            | some e, some b => v.check prop (prop ++ "_carriedEscrowFromHistory") ((b.remBase, b.remQuote, b.remFee) == e)
+            | _, _ => v
+          (match c.msg with
+           | .cancelBid id | .expireBid id | .rejectBid id _ => fromHistory v "C04" id
+           | .executeMatch _ b _ _ => fromHistory v "C02" b
+           | _ => v)
         else judgeRefused env s c isProbe d.startSane d.carried v
       -- a refused request must not have written anything (the harness reports what a refused call
       -- left in storage before the rollback it emulates)
@@ -467,9 +480,25 @@ def judge (d : DState) : Verdict × DState :=
         | r, _ => r
       let sh' := if implOk && !isProbe then shadowStep d.shadow implResp.attrs else d.shadow
       let v := if implOk && !isProbe && !d.tainted then v.check "C17" "C17_shadowOK" (C17_shadowOK sh' s') else v
+      let touched : Option String := match c.msg with
+        | .cancelBid id | .expireBid id | .rejectBid id _ => some id
+        | .executeMatch _ b _ _ => some b
+        | _ => none
+      let expect' := match touched with
+        | some id =>
+          if !implOk then d.expect else
+          (match d.expect.lookup id, loadBid s id, loadBid s' id with
+           | some e, some b, some b' =>
+             -- consistent so far: follow the order; otherwise reported once, then dropped
+             if (b.remBase, b.remQuote, b.remFee) == e then
+               (d.expect.filter (·.1 != id)) ++ [(id, (b'.remBase, b'.remQuote, b'.remFee))]
+             else d.expect.filter (·.1 != id)
+           | _, _, _ => d.expect.filter (·.1 != id))
+        | none => d.expect
       if noAdvance then (v, d)
       else (v, { d with st := some s', shadow := sh', lastMig := if implOk then none else d.lastMig,
-                        roles := roles', tainted := d.tainted || (implOk && !exactStepB s c.msg) })
+                        roles := roles', tainted := d.tainted || (implOk && !exactStepB s c.msg),
+                        expect := expect' })
   | .mig m =>
     match d.st with
     | none => ({}, d)
@@ -508,7 +537,11 @@ def judge (d : DState) : Verdict × DState :=
         | some (aps, exs) => if implOk then some (m.approvers.getD aps, exs) else d.roles
         | none => none
       (v, { d with st := some s', shadow := sh, lastMig := if implOk then some m else d.lastMig,
-                   roles := roles', carried := if implOk then d.carried ++ carriedKeys s else d.carried })
+                   roles := roles', carried := if implOk then d.carried ++ carriedKeys s else d.carried,
+                   expect := if implOk && inWindow s then
+                       d.expect ++ s.bids.filterMap (fun kv => match kv.2 with
+                         | .v2 old => some (kv.1, v2Remaining old) | .v3 _ => none)
+                     else d.expect })
   | .other sender funds name =>
     -- every theorem quantifies over the modelled request kinds; a request kind outside them is
     -- covered by none.  Harmless as long as it has no effect; an accepted one that moves funds or
